@@ -595,6 +595,21 @@ func runC13Matchers(x *simkit.Exec, g *c13Gen) {
 		}
 		pool = append(pool, c13Item{Kind: "M", Matchers: []c13Matcher{m}})
 	}
+	if x.Bool("matchers.longname", 1, 4) {
+		// a name 256 bytes longer than another one, built so that name+operator+value read the same when
+		// the boundary between them is moved (names and values are arbitrary UTF-8, NUL included)
+		base := g.matcher(true)
+		if validName(base.Name) {
+			filler := strings.Repeat(string(rune('a'+x.Draw("matchers.longname.fill", 26))), 253)
+			rest := base.Value
+			a := c13Matcher{Type: labels.MatchRegexp, Name: base.Name, Value: filler + "=~\x00" + rest}
+			b := c13Matcher{Type: labels.MatchRegexp, Name: base.Name + "=~\x00" + filler, Value: rest}
+			if utf8.ValidString(a.Value) && validName(b.Name) {
+				pool = append(pool, c13Item{Kind: "M", Matchers: []c13Matcher{a}}, c13Item{Kind: "M", Matchers: []c13Matcher{b}})
+				x.Probe("c13.matchers.name_256_bytes_longer")
+			}
+		}
+	}
 	if len(pool) == 0 {
 		return
 	}
